@@ -64,6 +64,8 @@ type BackendScript struct {
 	RawBody    []byte          // if UseRaw: response body bytes written verbatim after the head
 	UseRaw     bool
 	RawFlagsEnd *byte
+	WriteAfterEnd bool // keep writing after the response is complete
+	HeaderTwice bool   // call WriteHeader a second time
 	RawComplete bool // RawBody is the entire response body (nothing is appended; gRPC still sets its trailers)
 	FailOnBad  bool  // behave like a real server: answer invalid_argument when the request is invalid or its body errored
 }
@@ -95,6 +97,7 @@ type BackendObs struct {
 	Binding     *Binding
 	WriteErrs   []string
 	UsedComp    string
+	Direct      bool   // the handler was given the server's own ResponseWriter (pass-through)
 	Written     []byte // response body bytes handed to the ResponseWriter
 	Rejected    bool   // FailOnBad: the request was refused
 }
@@ -150,6 +153,10 @@ func (b *Backend) ServeHTTP(w http.ResponseWriter, r *http.Request) {
 	o.Header = r.Header.Clone()
 	o.ContentLen = r.ContentLength
 	o.Ctx = r.Context()
+	switch w.(type) {
+	case *Recorder, noFlushRecorder:
+		o.Direct = true
+	}
 	s := b.Script
 	if s.Panic != nil {
 		panic(s.Panic)
@@ -167,6 +174,16 @@ func (b *Backend) ServeHTTP(w http.ResponseWriter, r *http.Request) {
 	b.detect(r)
 	b.validate(r)
 	b.respond(w, r)
+	if s.HeaderTwice {
+		w.WriteHeader(500)
+	}
+	if s.WriteAfterEnd {
+		_, _ = w.Write([]byte("\x00\x00\x00\x00\x03abc"))
+		if f, ok := w.(http.Flusher); ok {
+			f.Flush()
+		}
+		w.Header().Set("X-Late", "1")
+	}
 }
 
 func (b *Backend) readAll(r *http.Request) {
